@@ -86,12 +86,6 @@ Definition rp_depths : repo :=
                  ("fields", JArr [JObj [("name", JStr "d"); ("type", JObj [("type", JStr "map"); ("values", JStr "D")])]])]);
    ("n.D", JObj [("type", JStr "fixed"); ("name", JStr "D"); ("namespace", JStr "n"); ("size", JInt 4)])].
 
-Definition equiv_instance (rp : repo) (top : string) (order : list string) : Prop :=
-  exists p j po,
-    lres_schema (load rp top) = Some (POk p) /\ inline_first_use rp top = POk j /\
-    load_ordered rp order = Some (POk po) /\
-    valid_raw j = true /\ closed j = false \/ True.
-
 Example C19_equiv_diamond :
   exists p j po s,
     lres_schema (load rp_diamond "A") = Some (POk p) /\ inline_first_use rp_diamond "A" = POk j /\
